@@ -58,6 +58,9 @@ def guards(R, P):
             continue
         o, has = f.calls(op), f.calls("cJSON_HasObjectItem")
         ok = len(o) == 1 and len(has) == 1 and any(RU.cond_call(f, c)[0] is has[0].node and pol != RU.cond_call(f, c)[1] for c, pol, b in RU.guards(f, o[0])) and argstr(f, o[0].node, 1) == argstr(f, has[0].node, 1) == "key"
+        if not ok and op == "cJSON_GetObjectItem" and len(o) == 1 and not has and argstr(f, o[0].node, 1) == "key":
+            # equally good: the lookup's own answer (NULL when the key is absent) is what the wrapper returns
+            ok = any(r_.node["a"] and RU.origin(f, r_.node["a"][0]) is o[0].node for r_ in f.returns())
         R.check(ok, "GUARD", "%s:requires-key" % name, where(f, o[0]) if o else name, "%s only after the key was found" % op)
     fam = set()
     for f in P.functions_in(FILE):
@@ -75,7 +78,9 @@ def guards(R, P):
         ok = len(o) == 1 and len(sz) == 1
         if ok:
             g = [RU.cmp_norm(f, c, pol) for c, pol, b in RU.guards(f, o[0])]
-            ok = any(x is not None and f.show(RU.uncast(f, x[0])) == "index" and x[1] == "<" and "cJSON_GetArraySize" in f.show(x[2]) for x in g)
+            ip = f.params[1]["n"]
+            ok = any(x is not None and x[2] is not None and f.show(RU.uncast(f, x[0])) == ip and x[1] == "<" and RU.origin(f, x[2], o[0]) is sz[0].node for x in g) or \
+                any(x is not None and x[2] is not None and f.show(RU.uncast(f, x[2])) == ip and x[1] == ">" and RU.origin(f, x[0], o[0]) is sz[0].node for x in g)
         R.check(ok, "GUARD", "%s:index-below-size" % name, where(f, o[0]) if o else name, "%s only for index < size" % op)
 
 
@@ -87,7 +92,13 @@ def tmpkey(R, P):
             continue
         R.fn(f)
         mk, use, ds = f.calls("aws_string_new_from_cursor"), f.calls(inner), f.calls({"aws_string_destroy", "aws_string_destroy_secure"})
-        ok = len(mk) == 1 and len(use) == 1 and len(ds) == 1 and "aws_string_c_str(tmp)" in f.show(use[0].node) and argstr(f, mk[0].node, 1) == "key" and argstr(f, ds[0].node, 0) == "tmp"
+        ok = len(mk) == 1 and len(use) == 1 and len(ds) == 1
+        if ok:
+            # the copy = the variable initialised from the string constructor; the inner call gets aws_string_c_str(copy)
+            # (directly or through a temporary); the copy is what is destroyed
+            sv = [v["n"] for e in f.all_events() if e.kind == "decl" for v in e.node["vars"] if v.get("init") is not None and RU.uncast(f, v["init"]) is mk[0].node]
+            cs = [RU.origin(f, a) for a in use[0].node["a"]]
+            ok = len(sv) == 1 and any(x is not None and x["k"] == "call" and x.get("callee") == "aws_string_c_str" and argstr(f, x, 0) == sv[0] for x in cs) and argstr(f, mk[0].node, 1) == "key" and argstr(f, ds[0].node, 0) == sv[0]
         ok = ok and ev_dominates(f, mk[0], use[0]) and ev_dominates(f, use[0], ds[0]) and RU.must_follow(f, lambda e: e is mk[0], lambda e: e is ds[0])[0]
         R.check(bool(ok), "TMPKEY", "%s:nul-terminated-copy" % name, "%s()" % name, "copy of the key -> %s -> destroyed on every path" % inner)
 
@@ -254,8 +265,24 @@ def numbers(R, P):
     ok = len(cd) == 1 and len(s17) == 1 and len(s15) == 1 and s15[0].line < cd[0].line < s17[0].line
     if ok:
         # the only way to the 17-digit print is through the re-read test failing (sscanf != 1 or !compare_double)
-        tests = [b for b in p.blocks.values() if b.cond is not None and s15[0].line < (p.d(b.cond).get("loc") or [0])[0] < s17[0].line]
-        ok = bool(tests) and all("compare_double" in p.show(p.d(b.cond)) or "sscanf" in p.show(p.d(b.cond)) for b in tests)
+        # (the decisions that separate the 17-digit print from the 15-digit one all derive from the re-read: the sscanf
+        # result and compare_double - tested directly or through a boolean that holds them)
+        ss = [e for e in p.all_events() if e.kind == "call" and (e.node.get("callee") or "").endswith("sscanf")]
+        roots = {cd[0].node["id"]} | {e.node["id"] for e in ss}
+        tainted, et = RU.derives(p, lambda n: n.get("id") in roots and n["k"] in ("call", "ref"))
+        from sa.cfg import edges as _edges
+        fwd = {e.blk for e in RU.reach_from(p, s15[0])} | {s15[0].blk}
+        back, work = {s17[0].blk}, [s17[0].blk]
+        preds = p.preds()
+        while work:
+            b_ = work.pop()
+            for q in preds.get(b_, []):
+                if q not in back:
+                    back.add(q)
+                    work.append(q)
+        between = [b_ for b_ in fwd & back if p.blocks[b_].cond is not None and len(_edges(p, b_)) == 2 and b_ != s17[0].blk]
+        # loops after the 17-digit print also "reach" it only through a back edge of an enclosing loop - there is none here
+        ok = bool(between) and all(et(p.blocks[b_].cond) for b_ in between)
     R.check(ok, "NUMBER", "print_number:17-digits-iff-15-do-not-reread", "%s: print_number()" % CJ, "17 digits are used exactly when the 15-digit text does not re-read close enough")
     iv = [b for b in p.blocks.values() if b.cond is not None and "valueint" in p.show(p.d(b.cond)) and "==" in p.show(p.d(b.cond))]
     R.check(len(iv) == 1, "NUMBER", "print_number:integer-iff-equal", "%s: print_number()" % CJ, "the integer form is used exactly when d == (double)valueint")
